@@ -14,7 +14,7 @@ func init() {
 		"non-trivial = document differs from base; distinct = (source hash, document)"
 }
 
-var c03Devs = []string{"NULL_OBJECT_VALIDATES_ZERO", "SIZED_INT_ENUM_REJECTS_ALL", "ADDL_INT_TRUNCATES", "ADDL_NONPRIMITIVE_UNTYPED", "NULL_TO_ADDL_STRUCT_ERRORS", "FORMAT_DEF_NO_METHODS", "NULLTYPE_UNENFORCED"}
+var c03Devs = []string{"SIZED_UINT8_ARRAY_IS_BYTES", "NULL_OBJECT_VALIDATES_ZERO", "SIZED_INT_ENUM_REJECTS_ALL", "ADDL_INT_TRUNCATES", "ADDL_NONPRIMITIVE_UNTYPED", "NULL_TO_ADDL_STRUCT_ERRORS", "FORMAT_DEF_NO_METHODS", "NULLTYPE_UNENFORCED"}
 
 func c03Types() []space.Leaf {
 	var ls []space.Leaf
